@@ -171,7 +171,7 @@ func (w *World) verifyFunc(key string) (f *FuncCtx, err error) {
 			return nil, fmt.Errorf("%s: invariant@%d but the function has %d loops (contract orphaned)", shortName(key), ord, nl)
 		}
 	}
-	f.track = hasRecover || c.NoPanic || c.PanicsOnly != nil
+	f.track = hasRecover || c.NoPanic || c.PanicsOnly != nil || len(c.PanicEns) > 0
 	sig := fi.Obj.Type().(*types.Signature)
 	st := newState()
 	bindVar := func(v *types.Var, name string) Term {
@@ -256,6 +256,7 @@ func (w *World) verifyFunc(key string) (f *FuncCtx, err error) {
 			// unreachable fallthrough (Go guarantees a terminating statement)
 		} else {
 			n := fl.Normal
+			n.ndefer = len(f.deferred)
 			n.site = "end"
 			n.ret = nil
 			for _, rv := range f.results {
@@ -275,13 +276,35 @@ func (w *World) verifyFunc(key string) (f *FuncCtx, err error) {
 		}
 		rets = rets2
 		if hasRecover && len(panics) > 0 {
-			m := f.merge(panics)
-			m.site = "recovered"
-			rv := f.fresh("recovered", SInt)
-			m.assume("(not (= " + rv + " 0))")
-			r2, p2 := f.runDeferred(m, rv)
-			rets = append(rets, r2...)
-			panics = p2
+			// group panic edges by how many deferred calls were registered when they were raised
+			byN := map[int][]*State{}
+			var escaped []*State
+			for _, p := range panics {
+				if p.ndefer == 0 {
+					escaped = append(escaped, p) // raised before any defer statement ran: nothing recovers it
+				} else {
+					byN[p.ndefer] = append(byN[p.ndefer], p)
+				}
+			}
+			panics = escaped
+			var ns []int
+			for n := range byN {
+				ns = append(ns, n)
+			}
+			sort.Ints(ns)
+			for _, n := range ns {
+				m := f.merge(byN[n])
+				m.ndefer = n
+				m.site = "recovered"
+				if len(ns) > 1 {
+					m.site = fmt.Sprintf("recovered%d", n)
+				}
+				rv := f.fresh("recovered", SInt)
+				m.assume("(not (= " + rv + " 0))")
+				r2, p2 := f.runDeferred(m, rv)
+				rets = append(rets, r2...)
+				panics = append(panics, p2...)
+			}
 		}
 	}
 	// panic obligations
@@ -293,6 +316,12 @@ func (w *World) verifyFunc(key string) (f *FuncCtx, err error) {
 				goal = env.boolT(c.PanicsOnly)
 			}
 			f.oblige(p, goal, "nopanic@"+p.site, "nopanic", "no panic escapes (edge "+p.site+")", nil, "")
+		}
+	}
+	for _, p := range panics {
+		for _, pe := range c.PanicEns {
+			env := f.conEnv(c, p, f.initSt, f.names0)
+			f.oblige(p, env.boolT(pe.Expr), fmt.Sprintf("panic_ensures%d@%s", pe.N, p.site), "panic_ensures", pe.Text, pe.Props, "")
 		}
 	}
 	// ensures at every return
@@ -349,7 +378,11 @@ func (f *FuncCtx) runDeferred(st *State, recoverVal string) (rets []*State, pani
 	defer func() { f.recoverT = savedRec }()
 	site := st.site
 	cur := st
-	for i := len(f.deferred) - 1; i >= 0 && cur != nil; i-- {
+	nd := st.ndefer
+	if nd > len(f.deferred) {
+		nd = len(f.deferred)
+	}
+	for i := nd - 1; i >= 0 && cur != nil; i-- {
 		d := f.deferred[i].(*ast.CallExpr)
 		if fl, ok := ast.Unparen(d.Fun).(*ast.FuncLit); ok {
 			flow := f.block(cur, fl.Body.List)
